@@ -18,6 +18,7 @@ TRUSTED_BASE = [
     "LAPACK solve (backward stable), brentq, numpy mean, SQLite AVG/SUM: compared with exact rational values within 1e-9 relative",
     "the Python harness: ground-truth generator (harness/pipeline.py), table dump, tolerances, planted-curve oracle",
 ]
+SQL_TIE = ('load', 'classify', 'zeta_grid', 'rise', 'recession')
 ASSUMPTIONS = [
     "records are generated from a recession curve that is piecewise linear on the sampling lattice and a constant "
     "specific yield; every storm lands on a lattice level and is followed by one light-rain step",
